@@ -6,6 +6,12 @@ import numpy as np
 import h5py
 
 LOG_ENV = 'VERIF_CALL_LOG'
+RAISE_ENV = 'VERIF_MAP_RAISE_AT'       # serial runs only: the map function raises once that many calls were logged
+
+
+class MapFault(RuntimeError):
+    """an ordinary error raised by the user's map function"""
+    pass
 
 
 def map_value(row):
@@ -17,6 +23,12 @@ def map_value(row):
 def logged_map(row, *args, **kwargs):
     """f(row), or f(row) * scale + offset when compute() is given a positional offset and / or scale=..."""
     path = os.environ.get(LOG_ENV)
+    raise_at = os.environ.get(RAISE_ENV)
+    if path and raise_at is not None and os.path.exists(path) and \
+            len(open(path).read().split()) >= int(raise_at):
+        raise MapFault('the map function fails on its call number %s' % raise_at)
+    if path and raise_at == '0' and not os.path.exists(path):
+        raise MapFault('the map function fails on its first call')
     if path:
         fd = os.open(path, os.O_WRONLY | os.O_APPEND | os.O_CREAT)
         try:
